@@ -385,3 +385,12 @@ VARIANTS += [
     silent('disambig-twin-flag', ['C15'], [(CU, "    prev = None\n    for value in values:\n        if isinstance(prev, NumberExpr):", "    prev_is_number = False\n    for value in values:\n        if prev_is_number:"),
                                            (CU, "        yield value\n        prev = value", "        yield value\n        prev_is_number = isinstance(value, NumberExpr)")]),
 ]
+
+PRN = 'autobean_refactor/printer.py'
+VARIANTS += [
+    fire('print-skips-empty', ['C01'], [(PRN, "    for token in model.tokens:\n        file.write(token.raw_text)", "    for token in model.tokens:\n        if token.raw_text.strip():\n            file.write(token.raw_text)")], 'PRINT-ALL'),
+    fire('print-tokens-drop-last', ['C01'], [(BA, "        return list(self.token_store.iter(self.first_token, self.last_token))", "        return list(self.token_store.iter(self.first_token, self.last_token))[:-1]")], 'PRINT-ALL'),
+    fire('print-tokens-from-store-start', ['C01'], [(BA, "        return list(self.token_store.iter(self.first_token, self.last_token))", "        return list(self.token_store.iter(self.token_store.get_first(), self.last_token))")], 'PRINT-ALL'),
+    silent('print-twin-attrgetter', ['C01'], [(PRN, "    for token in model.tokens:\n        file.write(token.raw_text)", "    for raw_text in map(operator.attrgetter('raw_text'), model.tokens):\n        file.write(raw_text)"),
+                                              (PRN, "import io\n", "import io\nimport operator\n")]),
+]
